@@ -157,7 +157,7 @@ func c01Spec() *edt.Spec {
 			if class == "eq-cofactored" {
 				want = "EdwardsPoint.IsSmallOrder(EdwardsPoint.TripleScalarMulBasepointVartime(" + k + ", EdwardsPoint.Neg(A), S, R)) ; nil"
 			} else {
-				want = "bytes.Equal(CompressedEdwardsY.SetEdwardsPoint(EdwardsPoint.DoubleScalarMulBasepointVartime(" + k + ", EdwardsPoint.Neg(A), S)), $sig[0:32]) ; nil"
+				want = "bytes.Equal($sig[0:32], CompressedEdwardsY.SetEdwardsPoint(EdwardsPoint.DoubleScalarMulBasepointVartime(" + k + ", EdwardsPoint.Neg(A), S))) ; nil"
 			}
 			if out != want {
 				return fmt.Sprintf("the verification equation or its challenge hash differs from the specification:\n      got  %s\n      want %s", out, want)
